@@ -59,6 +59,8 @@ type App struct {
 	behav  map[string]*Behav
 	nextH  int64
 	Enters int64
+	// EntersPush counts the push handler activations among Enters.
+	EntersPush int64
 }
 
 // NewApp creates the application kit.
@@ -87,6 +89,9 @@ func Name(s interface{ LocalAddr() net.Addr }) string {
 func (a *App) handle(kind string, sessName string, seq int32, method string, meta string, arg *Arg, reread func() (string, string)) (res *Res, stat *erpc.Status) {
 	h := fmt.Sprintf("h%d", atomic.AddInt64(&a.nextH, 1))
 	atomic.AddInt64(&a.Enters, 1)
+	if kind == "push" {
+		atomic.AddInt64(&a.EntersPush, 1)
+	}
 	tag := arg.Tag
 	a.Rec.Emit("HEnter", "h", h, "s", sessName, "kind", kind, "m", method, "seq", seq, "arg", arg.Tag, "pad", len(arg.Pad), "padsum", Sum(arg.Pad), "meta", meta)
 	b := a.getBehav(tag)
